@@ -110,12 +110,13 @@ static struct sockaddr_storage SRC_A, SRC_A2; static socklen_t SRCLEN;
 
 static void viol(const char *what, const char *fmt, ...)
 {
+	if (hc_san_as) return;
 	char detail[380], sig[120];
 	va_list ap; va_start(ap, fmt); vsnprintf(detail, sizeof detail, fmt, ap); va_end(ap);
 	snprintf(sig, sizeof sig, "%s:%s", PROP, what);
 	xp_violation(sig, "%s", detail);
 }
-static void on_san(const char *sig) { (void)sig; xp_count(K_SAN, 1); }
+static void on_san(const char *sig) { if (hc_san_report(sig, 0, "the lazy-mode / re-delivery search")) return; xp_count(K_SAN, 1); }
 
 #define FM_COUNT_FRAG() xp_count(K_DATA_ANS, 0)
 #include "fragmon.h"
@@ -518,7 +519,7 @@ int main(int argc, char **argv)
 	OPS.maxdepth = depth ? depth : thorough ? 5 : 4;
 	base_depth = OPS.maxdepth;
 	xp_describe_job = describe_job;
-	xp_init(PROP, a.tier, 1 << 24, a.budget_s);
+	xp_init(hc_san_as ? hc_san_as : PROP, a.tier, 1 << 24, a.budget_s);
 	if (a.replay) {
 		int j = xp_load_replay(a.replay);
 		boot(j / nlt);
